@@ -740,6 +740,11 @@ func (s *Service) processStoreReadFilterRequest(conn net.Conn) {
 		return
 	}
 
+	// The result set holds references into the index and the file store.
+	if rs != nil {
+		defer rs.Close()
+	}
+
 	// Encode success response.
 	if err := EncodeTLV(conn, storeReadFilterResponseMessage, &StoreReadFilterResponse{}); err != nil {
 		s.Logger.Error("Error writing StoreReadFilter response", zap.Error(err))
@@ -750,7 +755,6 @@ func (s *Service) processStoreReadFilterRequest(conn net.Conn) {
 	if rs == nil {
 		return
 	}
-	defer rs.Close()
 
 	// Stream result set to connection.
 	stream := NewStoreStreamSender(conn)
@@ -791,6 +795,11 @@ func (s *Service) processStoreReadGroupRequest(conn net.Conn) {
 		return
 	}
 
+	// The result set holds references into the index and the file store.
+	if rs != nil {
+		defer rs.Close()
+	}
+
 	// Encode success response.
 	if err := EncodeTLV(conn, storeReadGroupResponseMessage, &StoreReadGroupResponse{}); err != nil {
 		s.Logger.Error("Error writing StoreReadGroup response", zap.Error(err))
@@ -801,7 +810,6 @@ func (s *Service) processStoreReadGroupRequest(conn net.Conn) {
 	if rs == nil {
 		return
 	}
-	defer rs.Close()
 
 	// Stream result set to connection.
 	stream := NewStoreStreamSender(conn)
